@@ -648,6 +648,21 @@ def noisy_read(src, name, chrom, strand, exons, kind, mapq=60):
             if ex[i][0] - istart < 60:
                 return None
             ex = [[istart, istart + d - 1]] + ex[i:]
+    elif kind == "tinyinner":
+        # an internal block of 4-6 bp right before an annotated acceptor, followed by a short extra intron that ends
+        # inside the annotated exon: moving the first junction onto the annotated one makes it touch the second
+        if n < 3:
+            return None
+        i = src.int(0, n - 2)
+        iend = ex[i + 1][0] - 1
+        d = src.int(4, 6)
+        extra = src.int(20, 30)
+        if iend - ex[i][1] < 60 or ex[i + 1][1] - ex[i + 1][0] < extra + 60:
+            return None
+        ex = ex[:i + 1] + [[iend - d, iend - 1], [ex[i + 1][0] + extra, ex[i + 1][1]]] + ex[i + 2:]
+        # sequencing errors inside the tiny block (the corrector trusts a clean junction)
+        off = sum(b[1] - b[0] + 1 for b in ex[:i + 1])
+        mm = [off + j for j in range(0, d, 2)]
     elif kind == "fakemicro":
         # a short first block that spans an annotated micro-intron and is followed by an extra intron
         cand = [i for i in range(n - 1) if ex[i + 1][0] - ex[i][1] - 1 <= 50 and ex[i + 1][1] - ex[i + 1][0] > 160]
